@@ -120,6 +120,8 @@ UNITS['c08'] = {
 UNITS['c17'] = {
     'template': 'contracts/c17.vrs',
     'mutants': [
+        ('rename_skips_the_binder_name', 'changes.insert(decl_location.uri, vec_one(decl_edit));', '', ['C18.rename_variable']),
+        ('rename_use_replaces_earlier_edits', 'changes.push_edit(r.uri, edit);', 'changes.insert(r.uri, vec_one(edit));', ['C18.rename_variable']),
         ('refs_report_every_variable', 'if definition == core_ref_of(var.node()).definition().unwrap() {', 'if true {', ['C17.find_references']),
         ('refs_report_the_variable_node', 'node_location(workspace, var.identifier().node())?', 'node_location(workspace, var.node())?', ['C17.find_references']),
         ('definition_of_declaration_is_its_identifier', 'Some(Definition::External(External::new(decl.node())))', 'Some(Definition::External(External::new(ident.node())))', ['C17.find_definition']),
@@ -423,6 +425,30 @@ PROPS = {
         'assumptions': ['definition slots are those written by resolve (unit c08)', 'syntax_at / find_folders contracts (pinned)', 'the folder\'s module set was compiled from the texts the workspace currently holds'],
         'not_decided': ['machine-checked composition with C08 (two units, two shims of the tree)', 'rename / prepare_rename', 'references when several folders contain the document: the per-folder results are concatenated (only the empty case is specified)', 'internal (built-in) definitions: go-to-definition answers the empty list'],
     },
+    'C18': {
+        'units': ['c17'],
+        'level': 'other',
+        'obligation_prefixes': ['C18.'],
+        'scans': [
+            {'name': 'P17.syntax_at', 'kind': 'pinned_text', 'file': 'oal-client/src/lsp/handlers.rs', 'path': [('fn', 'syntax_at')],
+             'why': 'syntax_at::<N> (generic iterator chain) is under an ASSUMED contract: first node of sort N in pre-order whose span contains the index'},
+            {'name': 'P17.find_folders', 'kind': 'pinned_text', 'file': 'oal-client/src/lsp/handlers.rs', 'path': [('fn', 'find_folders')],
+             'why': 'find_folders is under an ASSUMED contract: the folders whose module set contains the locator'},
+        ],
+        'technique': 'Verus contracts on the real LSP handlers rename, rename_variable, find_qualifier (unit c17, over the definition slots written by the resolver): the request is always answered, and the edits are the binder\'s name plus every use bound to it',
+        'level_text': 'Deductive proof (Verus/Z3), for all folders, trees, cursor positions and new names: the real rename_variable returns for every definition the cursor can designate — a declaration, a function parameter, a recursion variable, a built-in — '
+                      '(no unwrap can fail: found failing on the pinned tree for parameters and recursion variables, which terminated the server; repaired by a fix commit, see known_findings.json), '
+                      'and its edits are exactly: one on the binder\'s own name (the declaration\'s identifier, or the first child of a binding), then one on the identifier of every Variable node of the folder whose definition slot is that binder, in module and pre-order, nothing else; '
+                      'a built-in gives no edit; the real rename handler always answers Ok(Some(edit set)) or an error value. '
+                      'That the edited sources are still accepted and compile to the same document (alpha-equivalence of two whole programs), non-overlap of the edits, rename_qualifier and prepare_rename are not decided: level other.',
+        'level_note': 'ASSUMED: as for C17 (syntax_at, find_folders pinned; tree accessors as an opaque tree with ghost structure; every node has a span; every Variable of a compiled folder has its slot set), plus: '
+                      '`HashMap<Url, Vec<TextEdit>>` as a trusted shim (EditMap: per document the edits in order), the Entry-API match rewritten to its push_edit (R-local), `vec![x]` -> vec_one, `new_name.into()` -> str_to_string, '
+                      'rename_qualifier NOT under contract (assumed to return and to leave the texts alone), the first child of a Binding node is its identifier (oal-syntax parser.rs Binding::ident).',
+        'design_ref': 'DESIGN.md section 12.30',
+        'explanation': 'Listed not applicable in the plan (alpha-equivalence of two programs). The clause "never crashes the server" and the shape of the edit set are single-call contracts on the handlers, within reach once C17 had the tree shim.',
+        'assumptions': ['definition slots are those written by resolve (unit c08)', 'syntax_at / find_folders contracts (pinned)', 'rename_qualifier returns'],
+        'not_decided': ['the edited sources are accepted and compile to the same document (two-program property)', 'edits do not overlap (distinct nodes have disjoint spans: parser invariant, out of reach)', 'rename_qualifier, prepare_rename', 'several folders containing the document: edits of the later folder are appended'],
+    },
     'C10': {
         'units': ['c10'],
         'level': 'proof',
@@ -641,7 +667,6 @@ HOOK_COMMITS = []
 NOT_APPLICABLE = {
     'C05': 'hyperproperty relating the outputs of two programs (before/after a rewrite); a contract speaks about one call, and a product encoding would need the whole pipeline inside the verifier',
     'C12': 'every parser production is a closure combinator over &mut Context (rejected by Verus: closures capturing a mutable reference); Kani on parse_program with three symbolic tokens did not finish in 30 min; the linear bound needs ghost accounting through that same code',
-    'C18': 'rename correctness is alpha-equivalence of two whole programs (C05 shape) and depends on the resolver invariant (C08)',
 }
 
 
